@@ -169,6 +169,7 @@ func init() {
 		return nil
 	})
 	regVerif("Symbolic", func(e *Engine, fn *ssa.Function, a []Value, s ssa.Instruction) Value { return tTrue })
+	regVerif("Thorough", func(e *Engine, fn *ssa.Function, a []Value, s ssa.Instruction) Value { return mkBool(e.cfg.Thorough) })
 
 	// SetExt(msg proto.Message, xt protoreflect.ExtensionType, v any)
 	regVerif("SetExt", func(e *Engine, fn *ssa.Function, a []Value, s ssa.Instruction) Value {
